@@ -4,7 +4,7 @@ never size/index from header fields unchecked (R-ALLOC/R-GUARD with header field
 from vlib import fixtures
 import re
 
-from rules import order, openguard, taint, trunc
+from rules import order, openguard, taint, trunc, partial
 from vlib.mir import Fn
 from vlib.run import Broken
 
@@ -21,7 +21,7 @@ def need(fx, fid):
 def run(ctx):
     fx = ctx.facts("default")
     order.use_facts(fx)
-    fixtures.run(ctx, ['order', 'taint', 'trunc', 'arithmul', 'dropwrite', 'varint', 'openguard'])
+    fixtures.run(ctx, ['order', 'taint', 'trunc', 'arithmul', 'dropwrite', 'varint', 'openguard', 'takeexact', 'createtrunc'])
     R = "R-ORDER"
     f = need(fx, MV + "resize_to_capacity")
     ctx.analysed_fns.add(f.id)
@@ -99,6 +99,11 @@ def run(ctx):
     ctx.instance("R-TRUNC.decoders", nt)
     ctx.floor("R-TRUNC.decoders", 2)
     trunc.writer_threshold(ctx, fx, ['src/blob_store/reorder_map.rs'])
+    # sections read with take(n).read_to_end are compared with their declared length (none on the pinned tree)
+    partial.bounded_section_read(ctx, fx, fx.files() if ctx.tier == 'thorough' else files)
+    # constructors of file-backed writers start from an empty file
+    order.create_truncates(ctx, fx, fx.files() if ctx.tier == 'thorough' else files + ['src/concurrency/async_blob_store.rs'])
+    ctx.floor('R-CREATE.truncate.sites', 3)
     ctx.floor('R-VARINT.threshold.writers', 1)
     return dict(
         level_note="decides ordering/durability structure, the open-time size comparison and unchecked use of header "
